@@ -11,7 +11,7 @@ from .extract import Extractor, Unsupported
 from .codec import canon, val_to_json, exc_name
 from .sym import SymWorld
 
-KEYS = ['a', 'b', 'c', 'd', -1, -2, 0, 1, 2]
+KEYS = ['a', 'b', 'c', 'd', -1, -2, 0, 1, 2, True, False]     # True == 1, False == 0: distinct disk digests, equal RAM keys (F3)
 
 
 def gen_pipeline(rng, n_roots=1):
@@ -202,8 +202,13 @@ def check_case(rec, ans):
         byvalue = any(f.get('byvalue') for l in d['layers'] for f in l.get('fields', {}).values())
         if 'ok' in real['r']:
             if want is not None and canon(real['r']['ok']) != want:
-                c04.append({'step': i, 'msg': f'call {meta["field"]}({meta["key"]!r}) returned {canon(real["r"]["ok"])[:200]} '
-                                              f'but the pipeline without cache layers returns {want[:200]}'})
+                # finding F3: a RAM cache answers a key that is == to an earlier key of another type (1 / True, 0 / False)
+                has_ram = any(l['k'] == 'ram' for l in d['layers'])
+                twin = any(m2.get('key') == meta['key'] and type(m2.get('key')) is not type(meta['key'])
+                           for m2 in rec['meta'][:i] if isinstance(m2, dict) and 'key' in m2)
+                c04.append({'step': i, 'pyeq': bool(has_ram and twin),
+                            'msg': f'call {meta["field"]}({meta["key"]!r}) returned {canon(real["r"]["ok"])[:200]} '
+                                   f'but the pipeline without cache layers returns {want[:200]}'})
         else:
             if not (real['r']['err'].startswith('user:') and meta.get('fail_at')):
                 c04.append({'step': i, 'msg': f'call {meta["field"]}({meta["key"]!r}) raised {real["r"]["err"]}'})
